@@ -77,6 +77,11 @@ def grid(tier):
             if D / dt > 40000:
                 continue
             yield D, dt, lin if (D % 5 == 0) else ([0.25, 0.5] if D % 7 == 3 else thirds)
+    # requested times within the matcher's tolerance of each other (one request to the matcher), off the grid
+    close = [0.3, 0.1 + 0.2, 0.45, 0.45 + 5e-11, 0.6, 0.6 + 4e-11, 0.6 + 9e-11, 1.0]
+    for D in (300, 1000, 4001):
+        for dt in (0.7, 7.0, 10.0):
+            yield D, dt, close
 
 
 def clauses(tt, D, req):
